@@ -90,10 +90,13 @@ def record_trace(rng: random.Random, deviate: bool, big: bool, with_writes: bool
          {"dev": "other-name", "exp": "none"}, {"dev": "", "exp": "none"}] + ([] if deviate else [{"dev": "oth", "exp": "dev"}, {"dev": "", "exp": "dev"}])
     )
     m = rng.randrange(0, 21 if big else 6)
+    mode = rng.randrange(5)
     plens = []
     for _ in range(m):
         r = rng.random()
         plens.append(rng.randrange(0, 8) if r < 0.5 else rng.choice((127, 128, 255, 256, 1000, 4000)) if r < 0.85 else rng.randrange(20000, 65000))
+    if mode == 4:
+        plens.insert(rng.randrange(0, len(plens) + 1), rng.randrange(30000, 65000))  # enough ciphertext to find look-alike chunks in
     honest = honest_frames(nm["dev"], plens)
     dev = random_dev(rng, len(honest)) if deviate else {"k": "none", "i": 0}
     frames = apply_dev(honest, dev)
@@ -103,8 +106,36 @@ def record_trace(rng: random.Random, deviate: bool, big: bool, with_writes: bool
         stream = s.stream(frames, dev["k"])
         # cut positions
         L = len(stream)
-        mode = rng.randrange(4)
-        if mode == 0 and L < 600:
+        cuts = None
+        if mode == 4:
+            # chunks that begin INSIDE an encrypted frame and look like one whole frame themselves (0x01, 16-bit
+            # length, exactly that many bytes): a helper that trusts the shape of a chunk is fooled by them
+            starts = set()
+            pos = 0
+            for f in frames:
+                starts.add(pos)
+                pos += 3 + f["blen"]
+            first_app = sorted(starts)[2] if len(starts) > 2 else L
+            cands = []
+            for p0 in range(first_app + 1, L - 3):
+                if stream[p0] == 1 and p0 not in starts:
+                    e = p0 + 3 + ((stream[p0 + 1] << 8) | stream[p0 + 2])
+                    if e <= L:
+                        cands.append((p0, e))
+            rng.shuffle(cands)
+            cuts = set()
+            end = 0
+            for a, b in sorted(cands[:5]):
+                if a >= end:
+                    cuts |= {a, b}
+                    end = b
+            cuts.discard(L)
+            if not cuts:
+                cuts = None
+                mode = 3
+        if cuts is not None:
+            pass
+        elif mode == 0 and L < 600:
             cuts = set(range(1, L))
         elif mode == 1:
             cand = set()
